@@ -113,7 +113,7 @@ func ValueLen(t *rapid.T, r *Runner, klen int, batchID uint64, big bool) int {
 		if !big {
 			return rapid.IntRange(1025, 9000).Draw(t, "vlen")
 		}
-		if !r.hugeDone && Pct(t, 7, "huge") {
+		if !r.hugeDone && !r.NoHuge && Pct(t, 7, "huge") {
 			// one value of more than a mebibyte per history: size classes above anything the other classes reach
 			r.hugeDone = true
 			r.Stats.Label("value->1MiB")
